@@ -91,6 +91,8 @@ def gen_A(tier, only=None):
             ex_decl = [()] + [(q,) for q in Q] + [(s,) for s in SF] + [(AL,)]
             ex_decl += [(a, b) for a in Q + SF for b in Q + SF if a != b and not (a in SF and b in SF)]
             ex_decl += [(AL, s) for s in ("static", "extern", "const")] + [(s, AL) for s in ("static", "extern", "const")]
+            TL = "_Thread_local"
+            ex_decl += [(TL,), (TL, "static"), ("static", TL), (TL, "extern"), ("extern", TL), (TL, "const"), ("volatile", TL)]
             if tier == "thorough":
                 ex_decl += [(a, b, c) for a in Q + SF for b in Q + SF for c in Q + SF
                             if len({a, b, c}) == 3 and sum(x in SF for x in (a, b, c)) <= 1]
@@ -155,10 +157,9 @@ def shapes(maxlen):
     return out
 
 
-def render_declarator(shape, name, full_parens, params):
+def render_declarator(shape, name, full_parens, params, na=0):
     """shape[0] is the derivation closest to the identifier ("name is a <shape[0]> of <shape[1]> of ... base")."""
     s = name
-    na = 0
     for d in shape:
         if d == "P":
             s = "*" + s
@@ -251,12 +252,25 @@ def gen_B(tier):
                         d = render_declarator(shape, "x", fp, params)
                         f2, m2 = shape_facts(adj, base, "x", pcall)
                         f2, m2 = f2[:2], dict((k, m2[k]) for k in ("size0", "align0"))
-                        if shape[0] == "P" or True:
-                            cases.append(case("B/param/%s/%s/%s" % (sname, bn, style), "B",
-                                              "static long pf@(%s %s) { return sizeof(x) * 1000 + _Alignof(__typeof__(x)); }" % (base[0], d),
-                                              blk="", bfacts=[("param", "pf@(0)")],
-                                              model={"param": m2["size0"] * 1000 + m2["align0"]} if shape[0] != "X" else {},
-                                              shape="%s/%s/param" % (sname, style)))
+                        cases.append(case("B/param/%s/%s/%s" % (sname, bn, style), "B",
+                                          "static long pf@(%s %s) { return sizeof(x) * 1000 + _Alignof(__typeof__(x)); }" % (base[0], d),
+                                          blk="", bfacts=[("param", "pf@(0)")], model={"param": m2["size0"] * 1000 + m2["align0"]},
+                                          shape="%s/%s/param" % (sname, style)))
+    # derived types reached through a typedef: `typedef base D1 T; extern T D2 x;` is D2 applied to (D1 of base)
+    sh2 = [x for x in shapes(2) if x]
+    for s1 in sh2:
+        for s2 in sh2:
+            if (s2[-1] == "A" and s1[0] == "F") or (s2[-1] == "F" and s1[0] in "AF"):
+                continue
+            comp = s2 + s1
+            for base in (BASES[0], BASES[4], BASES[5]):
+                for fp in (False, True):
+                    t = render_declarator(s1, "T@", fp, "(void)", na=s2.count("A"))
+                    d = render_declarator(s2, "FN(x@)", fp, "(void)")
+                    facts, model = shape_facts(comp, base, "FN(x@)", "()")
+                    cases.append(case("B/via-typedef/%s/%s/%s/%s" % (".".join(s2), ".".join(s1), base[0].replace(" ", "_"), "full" if fp else "min"),
+                                      "B", "typedef %s %s; extern T@ %s;" % (base[0], t, d), facts, model=model,
+                                      shape="%s/of-typedef-%s/%s" % (".".join(s2), ".".join(s1), "full" if fp else "min")))
     return cases
 
 
@@ -277,12 +291,37 @@ AGG = {
     "PS": ("struct __attribute__((packed)) { char x; int y; }", 5, 1, [("x", 0), ("y", 1)], []),
     "S16": ("struct { char x; } __attribute__((aligned(16)))", 16, 16, [("x", 0)], []),
     "B": ("struct { int x : 3; int y : 9; char z; }", 4, 4, [("z", 2)], [("x", 0, 3), ("y", 3, 9)]),
+    "U16": ("union { char x; long double y; }", 16, 16, [("x", 0), ("y", 0)], []),
+    "N": ("struct { char x; struct { short z; } y; }", 4, 2, [("x", 0), ("y", 2), ("y.z", 2)], []),
+}
+# several declarators in one member declaration (they share the specifiers, including _Alignas)
+MULTI = {
+    "cc": ("char %s, %s_;", [("f", 1, 1, False), ("f", 1, 1, False)]),
+    "A8cc": ("_Alignas(8) char %s, %s_;", [("f", 1, 8, True), ("f", 1, 8, True)]),
+    "ibb": ("int %s: 3, %s_: 5;", [("bf", 4, 3), ("bf", 4, 5)]),
+    "lbc": ("long %s: 33, : 0, %s_;", [("bf", 8, 33), ("bf0", 8, 0), ("f", 8, 8, False)]),
 }
 
 
 def member(code, j):
     """-> dict(decl, offs[(label, designator)], bits[(label, designator)], m=model member)."""
     n = "m%d" % j
+    if code in MULTI:
+        fmt, parts = MULTI[code]
+        names = [n, n + "_"]
+        out = {"decl": fmt % (n, n), "offs": [], "bits": [], "m": []}
+        for part in parts:
+            if part[0] == "f":
+                nm = names.pop(0)
+                out["offs"].append(nm)
+                out["m"].append({"k": "f", "size": part[1], "align": part[2], "ua": part[3], "sub": [(nm, 0)], "subbits": []})
+            elif part[0] == "bf":
+                nm = names.pop(0)
+                out["bits"].append(nm)
+                out["m"].append({"k": "bf", "size": part[1], "width": part[2], "named": True, "name": nm})
+            else:
+                out["m"].append({"k": "bf", "size": part[1], "width": 0, "named": False, "name": None})
+        return out
     if code in SCALARS:
         t, sz = SCALARS[code]
         return {"decl": "%s %s;" % (t, n), "offs": [n], "bits": [], "m": {"k": "f", "size": sz, "align": sz, "ua": False, "sub": [(n, 0)], "subbits": []}}
@@ -300,7 +339,17 @@ def member(code, j):
         k = int(m.group(1)); t, sz = SCALARS[m.group(2)]
         return {"decl": "_Alignas(%d) %s %s;" % (k, t, n), "offs": [n], "bits": [],
                 "m": {"k": "f", "size": sz, "align": max(k, sz), "ua": k != 0, "sub": [(n, 0)], "subbits": []}}
-    m = re.fullmatch(r"(a?)(S|U|PS|S16|B)", code)
+    m = re.fullmatch(r"A([LD])([a-z]+)", code)
+    if m:                                              # _Alignas(type-name) scalar
+        k = 8 if m.group(1) == "L" else 16; t, sz = SCALARS[m.group(2)]
+        return {"decl": "_Alignas(%s) %s %s;" % ("long" if k == 8 else "long double", t, n), "offs": [n], "bits": [],
+                "m": {"k": "f", "size": sz, "align": max(k, sz), "ua": True, "sub": [(n, 0)], "subbits": []}}
+    m = re.fullmatch(r"Sa(\d+)", code)
+    if m:                                              # array of struct S
+        k = int(m.group(1))
+        return {"decl": "%s %s[%d];" % (AGG["S"][0], n, k), "offs": [n, "%s[%d].y" % (n, k - 1)], "bits": [],
+                "m": {"k": "f", "size": 8 * k, "align": 4, "ua": False, "sub": [(n, 0), ("%s[%d].y" % (n, k - 1), 8 * (k - 1) + 4)], "subbits": []}}
+    m = re.fullmatch(r"(a?)(S|U|PS|S16|B|U16|N)", code)
     if m:
         spell, sz, al, leaves, bl = AGG[m.group(2)]
         if m.group(1):                                 # anonymous member: leaves are renamed per position
@@ -375,6 +424,13 @@ def layout(kind, attr, mems, flavor):
     return up(bits, al * 8) // 8, al, offs, bitpos
 
 
+def flat(ms):
+    out = []
+    for m in ms:
+        out += m["m"] if isinstance(m["m"], list) else [m["m"]]
+    return out
+
+
 def image(size, pos):
     b = bytearray(size)
     for k in range(pos[0], pos[0] + pos[1]):
@@ -383,7 +439,7 @@ def image(size, pos):
     return bytes(b).hex()
 
 
-ATTRS = {"plain": ((), ()), "packed": (("packed",), ()), "packed-post": ((), ("packed",)),
+ATTRS = {"plain": ((), ()), "packed": (("packed",), ()), "packed-post": ((), ("packed",)), "aligned8+packed-post": (("aligned(8)",), ("packed",)),
          "packed+aligned4": (("packed", "aligned(4)"), ()), "packed+aligned16-post": ((), ("packed", "aligned(16)"))}
 for _k in (1, 2, 4, 8, 16, 32):
     ATTRS["aligned%d" % _k] = (("aligned(%d)" % _k,), ())
@@ -403,7 +459,7 @@ def struct_case(kind, attr, seq, reduced=False):
     offs = [o for m in ms for o in m["offs"]]
     bits = [b for m in ms for b in m["bits"]]
     facts += [("off:" + o, "offsetof(%s, %s)" % (T, o)) for o in offs]
-    size, al, moffs, mbits = layout(kind, pre + post, [m["m"] for m in ms], "abi")
+    size, al, moffs, mbits = layout(kind, pre + post, flat(ms), "abi")
     model = {"size": size, "align": al}
     for o in offs:
         model["off:" + o] = moffs[o]
@@ -435,7 +491,8 @@ def valid_seq(kind, seq):
 BF_ALL = (["c:1", "c:7", "c:8", "c:0", "uc:3", "b:1", "b:0", "s:1", "s:7", "s:8", "s:9", "s:16", "s:0"] +
           ["i:1", "i:7", "i:8", "i:9", "i:31", "i:32", "i:0", "u:5", "u:0", "i:-3", "c:-5", "l:-33", "s:-9"] +
           ["l:1", "l:7", "l:8", "l:9", "l:31", "l:32", "l:33", "l:63", "l:64", "l:0", "ul:40"])
-ALPHA_FULL = (["c", "s", "i", "l", "f", "d", "ld", "p", "ca3", "sa2", "S", "U", "PS", "S16", "aS", "aU", "aB", "B"] + BF_ALL +
+ALPHA_FULL = (["c", "s", "i", "l", "f", "d", "ld", "p", "ca3", "sa2", "lda2", "Sa2", "S", "U", "PS", "S16", "U16", "N", "aS", "aU", "aB", "aPS", "B",
+               "cc", "A8cc", "ibb", "lbc", "ALc", "ADc", "ADi"] + BF_ALL +
               ["cF", "iF", "lF", "A1c", "A2c", "A4c", "A8c", "A16c", "A32c", "A0i", "A4i", "A8i", "A16i", "A8l", "A16l", "A32l", "A16s", "A2s"])
 ALPHA_Q = ["c", "s", "i", "l", "ld", "ca3", "S", "aU", "c:1", "c:0", "s:9", "i:1", "i:7", "i:31", "i:0", "l:33", "l:63", "l:0", "i:-3",
            "iF", "A8c"]
@@ -766,7 +823,7 @@ def dev_class(diffs):
 
 
 def has_nonzero_bitfield(seq):
-    return any(re.fullmatch(r"[a-z]+:-?[1-9]\d*", c) or c in ("B", "aB") for c in seq)
+    return any(re.fullmatch(r"[a-z]+:-?[1-9]\d*", c) or c in ("B", "aB", "ibb", "lbc") for c in seq)
 
 
 def replay_for(kind):
@@ -831,7 +888,7 @@ def run(ctx):
         pre, post = ATTRS[attr]
         if kind != "struct" or "packed" not in pre + post or not has_nonzero_bitfield(seq):
             return False
-        ms = [member(code, j)["m"] for j, code in enumerate(seq)]
+        ms = flat([member(code, j) for j, code in enumerate(seq)])
         size, al, offs, bitpos = layout(kind, pre + post, ms, "chibicc")
         obs = dict((lab, a) for lab, a, b in d)
         want = {"size": size, "align": al}
@@ -887,6 +944,10 @@ def run(ctx):
                 out.append("bitfield0" if m.group(3) == "0" else ("unnamed-bitfield" if m.group(2) else "bitfield"))
             elif code in SCALARS:
                 out.append("scalar")
+            elif code in MULTI:
+                out.append("declarator-list")
+            elif code.startswith("Sa"):
+                out.append("array")
             elif code[0] == "A":
                 out.append("alignas")
             elif code.endswith("F"):
